@@ -1,6 +1,6 @@
 (** C15, second generation, 8-bit counts inside other structures: the DHCP option TLV parses back to the supplied
     code and data exactly when the data fits the one-octet length. *)
-From RS Require Import Base.Bytes Base.Outcome Interp.Val Lib.LibBase Lib.ProtoLib Lib.StdLib
+From RS Require Import Base.Bytes Base.Outcome Interp.Val Lib.LibBase Lib.MiscLib Lib.ProtoLib Lib.StdLib
   Spec.LenPrefix Spec.DhcpParse Proofs.BytesLemmas Proofs.C15.LenLemmas Proofs.C15.StdHelpers Proofs.C15.DhcpDns
   Proofs.C15.Wrap.
 From Coq Require Import ZArith Lia ZifyBool ZifyNat ZifyN.
@@ -36,4 +36,27 @@ Proof.
     - split; intros P; injection P as P1 P2; subst; reflexivity.
     - split; discriminate. }
   apply X. reflexivity.
+Qed.
+
+(** the 32-bit helper, for completeness of the family (the boundary is 4 GiB of content) *)
+Theorem len_be32_exact e parts h :
+  call e "std::len_be32" [] (map VStr parts) h
+  = Some (Ok (VStr (be32 (len (concat parts) mod 4294967296) ++ concat parts), h)).
+Proof.
+  unfold call. change (exec e "std::len_be32" None [] (map VStr parts) h)
+    with (Some (std_len_fn (fun n => be32 (wrap32 n)) [] (map VStr parts) h)). rewrite std_len_fn_strs. reflexivity.
+Qed.
+
+Theorem len_be32_iff e parts rest h out :
+  call e "std::len_be32" [] (map VStr parts) h = Some (Ok (VStr out, h)) ->
+  (parse_len_be32 (out ++ rest) = Some (concat parts, rest) <-> len (concat parts) < 4294967296).
+Proof.
+  rewrite len_be32_exact. intros E. injection E as E. subst out. split.
+  - intros P. destruct (N.ltb_spec (len (concat parts)) 4294967296) as [L|L]; [exact L|exfalso].
+    assert (P' : parse_len_be32 (be32 (len (concat parts) mod 4294967296) ++ concat parts ++ rest)
+                 = Some (concat parts, rest)) by exact P.
+    unfold parse_len_be32, parse_len_prefixed in P'.
+    fold (parse_be32 (be32 (len (concat parts) mod 4294967296) ++ concat parts ++ rest)) in P'.
+    rewrite parse_be32_enc in P' by lia. revert P'. apply take_exact_short. lia.
+  - intros L. exact (parse_len_be32_enc (concat parts) rest L).
 Qed.
